@@ -186,7 +186,7 @@ CLAIMS.update({
                   "of a token (`diag_pos_is_source_pos_partial`, with counterexamples for the unrestricted form: K2/K4); which stored "
                   "position each diagnostic uses is checked by the tie. Tie at token/tree level with positions; oracle: "
                   "planted offending tokens (undefined names in 33 operand positions) under layout rewrites with a 5-line Python reference. "
-                  "Known findings K2, K4, K5.",
+                  "Known findings K2, K4, K5. Attribution theorems say WHICH stored position each diagnostic carries: the operator of a failing binary operation or op-assignment (each operator of a chain its own), the keyword of a stray jump, the index expression, the condition, the iterable (`binop_fail_at_opLoc`, `chain_*_fails`, `break_escaping_call_at_keyword`, `node_kw`/`kw_pos_src` on source text).",
              ref="§6 C18", technique="Lean 4 position theorems on scanner/lexer models + positioned tok/ast correspondence + planted-token oracle"),
  "C20": dict(text="Lean theorems: reading/assigning/op-assigning an undeclared name is `Undefined` at that name, declaring twice in one scope "
                   "is `AlreadyInScope` citing the earlier position and leaves the state unchanged, inner-scope redeclaration is allowed, all "
